@@ -75,5 +75,20 @@ Proof.
       rewrite (read_all_step fuel _ Hne).
       rewrite (C19_prefix_free classify stopb ops Hops k _ G). simpl. auto.
 Qed.
+(* an uncut file reads back as exactly the frames that were written, then end of file *)
+Theorem read_all_complete frames : Forall (Forall wf_inst) frames -> forall fuel, length frames < fuel ->
+  read_all fuel (file frames) = (map enc frames, Eof).
+Proof.
+  induction 1 as [|ops frames Hops _ IH]; intros fuel Hf.
+  - destruct fuel; [simpl in Hf; lia|]. reflexivity.
+  - destruct fuel as [|fuel]; [simpl in Hf; lia|]. simpl in Hf.
+    unfold file in *. cbn [map concat]. set (rest := concat (map enc frames)) in *.
+    assert (Hne : enc ops ++ rest <> []) by (destruct (enc ops) eqn:X; [now apply enc_nonempty in X|discriminate]).
+    rewrite (read_all_step fuel _ Hne).
+    rewrite (scan_complete classify stopb stop_class ops Hops rest) by (rewrite app_length; pose proof (enc_ops_length ops); lia).
+    rewrite (IH fuel) by lia. cbn zeta. f_equal. f_equal.
+    rewrite app_length. replace (length (enc ops) + length rest - length rest) with (length (enc ops)) by lia.
+    now rewrite firstn_app, firstn_all, Nat.sub_diag, firstn_O, app_nil_r.
+Qed.
 End Reader.
 Print Assumptions C19_truncation.
